@@ -225,4 +225,14 @@ PROPS = {
         essential={"convolution": {"order:0": 0.05, "order:2": 0.05, "order:5": 0.03, "kernel:on_grid": 0.1, "dim:not_last": 0.1, "kernel_knots:2": 0.05, "kernel_knots:6": 0.05}},
         assumptions=["reference evaluation (ref.hpp) of the original table; Gauss-Legendre nodes to 25 digits"],
     ),
+    "C17": dict(
+        level="exploration",
+        level_text="Generated tables (1..4 dims, mixed orders 0..4, strictly increasing knots, 30-95 % zero coefficients) are evaluated on generated grids (1..12 abscissae per axis: unsorted, repeated, on knots, outside the range on both sides, single-point axes) through C++ grideval and the C wrapper (+ndsparse_destroy, under LeakSanitizer). The index ranges must equal the grid lengths, every listed index must be inside, entries with equal index are summed, and for every grid point strictly inside the knot range the listed value (0 if unlisted) must equal pointwise ndsplineeval<double> within 1e5*eps*magnitude.",
+        level_note="Nothing is asserted about grid points on or outside the first/last knot beyond index validity and memory safety (the half-open conventions differ there and the property excludes them).",
+        technique="property-based differential testing (rapidcheck) of grid vs pointwise evaluation under ASan/LSan",
+        units=[U("c17_grideval", "c17_grideval.cpp", quick=2500, thorough=400000, names=["grideval"])],
+        rule="Non-trivial: ndim>=2 and the grid has at least one outside point and one repeated or unsorted abscissa; distinct = hash(spec, grid).",
+        essential={"grideval": {"grid:has_outside_points": 0.3, "grid:unsorted_or_repeated": 0.3, "grid:single_point_axis": 0.1, "via:C": 0.2, "interior_point:unlisted": 0.5, "interior_point:listed": 2.0}},
+        assumptions=["magnitude of the summed terms from the reference evaluation (ref.hpp)"],
+    ),
 }
